@@ -1099,16 +1099,39 @@ func (x *c03ctx) formatRuntimePair(f *ssa.Function, ta *ssa.TypeAssert) (bool, s
 				continue
 			}
 			n++
-			ex, ok := storeB.Val.(*ssa.Extract)
-			if !ok || ex.Index != 0 || storeA == nil {
+			if storeA == nil || storeA.Addr.(*ssa.FieldAddr).X != storeB.Addr.(*ssa.FieldAddr).X {
 				return false, ""
 			}
-			call, ok := ex.Tuple.(*ssa.Call)
-			if !ok || !call.Call.IsInvoke() || call.Call.Method.Name() != "ValidateSchema" || call.Call.Value != storeA.Val {
-				return false, ""
+			// (format, runtime) pairs that reach the two stores: directly, or through the parameters of an extracted
+			// constructor (then checked at each of its call sites)
+			type pair struct{ a, b ssa.Value }
+			pairs := []pair{{storeA.Val, storeB.Val}}
+			pa, isPA := storeA.Val.(*ssa.Parameter)
+			pb, isPB := storeB.Val.(*ssa.Parameter)
+			if isPA && isPB {
+				sites := x.e.callers[g]
+				if len(sites) == 0 {
+					return false, ""
+				}
+				pairs = nil
+				ia, ib := c03paramIndex(pa), c03paramIndex(pb)
+				for _, cs := range sites {
+					cc2 := cs.Common()
+					if cc2.IsInvoke() || ia >= len(cc2.Args) || ib >= len(cc2.Args) {
+						return false, ""
+					}
+					pairs = append(pairs, pair{cc2.Args[ia], cc2.Args[ib]})
+				}
 			}
-			if storeA.Addr.(*ssa.FieldAddr).X != storeB.Addr.(*ssa.FieldAddr).X {
-				return false, ""
+			for _, pr := range pairs {
+				ex, ok := pr.b.(*ssa.Extract)
+				if !ok || ex.Index != 0 {
+					return false, ""
+				}
+				call, ok := ex.Tuple.(*ssa.Call)
+				if !ok || !call.Call.IsInvoke() || call.Call.Method.Name() != "ValidateSchema" || call.Call.Value != pr.a {
+					return false, ""
+				}
 			}
 		}
 		if n == 0 {
@@ -2029,26 +2052,48 @@ func (x *c03ctx) runK6() {
 			}
 			n++
 			key := core.FuncKey(f) + " creates a json.Decoder"
-			v := ci.Value()
 			okAll := true
 			why := ""
-			for _, u := range core.Referrers(v) {
-				if _, dbg := u.(*ssa.DebugRef); dbg {
-					continue
-				}
-				if st, ok := u.(*ssa.Store); ok && st.Val == ssa.Value(v) {
-					if fa, ok := st.Addr.(*ssa.FieldAddr); ok {
-						if fld := core.FieldOfAddr(fa); fld != nil && !fld.Exported() {
-							fields[fld] = true
-							continue
+			// the decoder value, and — if an unexported constructor helper just returns it — the helper's results
+			work := []ssa.Value{ci.Value()}
+			for steps := 0; len(work) > 0 && steps < 8; steps++ {
+				v := work[0]
+				work = work[1:]
+				for _, u := range core.Referrers(v) {
+					if _, dbg := u.(*ssa.DebugRef); dbg {
+						continue
+					}
+					if st, ok := u.(*ssa.Store); ok && st.Val == v {
+						if fa, ok := st.Addr.(*ssa.FieldAddr); ok {
+							if fld := core.FieldOfAddr(fa); fld != nil && !fld.Exported() {
+								fields[fld] = true
+								continue
+							}
 						}
 					}
+					if isRecvOfAllowed(v, u) {
+						continue
+					}
+					if rt, ok := u.(*ssa.Return); ok && len(rt.Results) == 1 {
+						h := rt.Parent()
+						if o := h.Object(); o != nil && !o.Exported() && h.Parent() == nil && len(x.e.callers[h]) > 0 {
+							followed := true
+							for _, cs := range x.e.callers[h] {
+								cv := cs.Value()
+								if cv == nil || cs.Common().StaticCallee() != h {
+									followed = false
+									break
+								}
+								work = append(work, cv)
+							}
+							if followed {
+								continue
+							}
+						}
+					}
+					okAll = false
+					why = "the decoder escapes through " + u.String()
 				}
-				if isRecvOfAllowed(v, u) {
-					continue
-				}
-				okAll = false
-				why = "the decoder escapes through " + u.String()
 			}
 			c.Check(okAll, "K6", key, core.InstrPos(ci), "decoder confined to an unexported field / local receiver", "json.Decoder escapes the reader, so a UseNumber call elsewhere cannot be excluded: "+why)
 		}
